@@ -207,9 +207,9 @@ def prob_specs(draw):
     # with significant digits far beyond the sixth decimal
     small = ['2e-7', '5e-6', '1.5e-6', '0.0000005', '3e-9', '0.00012345678', '1e-3']
     if kind == 'single':
-        return draw(st.sampled_from(['0.1', '0.05', '1e-2', '0.3'] + small))
+        return draw(st.sampled_from(['0.1', '0.05', '1e-2', '0.3', '0', '0.0', '1'] + small))
     if kind == 'list':
-        vals = draw(st.lists(st.sampled_from(['0.01', '0.05', '0.1', '0.15', '0.2', '0.25', '0.3']
+        vals = draw(st.lists(st.sampled_from(['0.01', '0.05', '0.1', '0.15', '0.2', '0.25', '0.3', '0']
                                              + small),
                              min_size=2, max_size=5, unique=True))
         return ','.join(vals)
